@@ -156,6 +156,19 @@ CLAIMED["C17"] = ("model_checking",
     "TLA+ semantics spec + TLC closed product graph; transitions replayed into the real types beside the std types; states validated by TLC",
     "Val", "5 C17")
 
+CLAIMED["C16"] = ("model_checking",
+    "The lifetime ledger (LedgerOps/Lifetime.tla; model-checked as a generator) is applied by LifetimeTrace.tla to the "
+    "event stream of every owning type: an element type that logs each construction (with its source), assignment and "
+    "destruction, and an allocator that logs every block. Guards: never constructed over a live object, constructed "
+    "inside existing storage, copy/move/assign source inside its lifetime, destroyed exactly once, deallocate with the "
+    "allocated size, no live element inside a returned block, nothing alive or allocated when the owner is gone. The "
+    "operation sequences are the tours of the C13 (vector, small_vector, dyn_array, stack, list), C14 (hash_map) and "
+    "C17 (optional, expected, variant, manual_box) graphs plus TLC-enumerated scripts for unique_ptr, unique_memory, "
+    "string, list destroyed non-empty, tuple and the radix tree (erased values are exempt, see DESIGN.md).",
+    "bounds as in C13/C14/C17; owner scripts up to 3-6 operations; one known finding (small_vector bytewise relocation of inline elements) is listed in known_findings.jsonl",
+    "TLA+ ledger spec; TLC-generated operation sequences replayed into the real owning types with a lifetime-logging element and a block-logging allocator; every event validated by TLC as a ledger action",
+    "Life", "5 C16")
+
 NOT_YET = "check not built yet in this round (see DESIGN.md build order); not claimed until its TLA+ spec and conformance harness exist"
 
 checks, na = [], []
